@@ -22,6 +22,9 @@ import z3
 # in the code under analysis cannot swallow them)
 
 
+from . import xcheck as _xcheck  # noqa: E402
+
+
 class PathAbort(BaseException):
     """Abandon the current path (infeasible assumption or cap)."""
 
@@ -51,9 +54,19 @@ def emulated(exc):
 _VERIF_ROOT = __file__.rsplit("/symx/", 1)[0] + "/"
 
 
+_PROXY_NAMES = ("SymStr", "SymReal", "SymInt", "SymBool", "SymChar", "SymEnum", "LogVal", "_NaN", "Arr", "Num", "F64", "SymRng", "FixedRng", "Poly")
+
+
 def _raised_by_harness(e):
     if getattr(e, "_sx_emulated", False):
         return False
+    if isinstance(e, (TypeError, AttributeError)):
+        # a C-level function rejected a proxy object ("expected str instance, SymStr found", "'Arr' object has no attribute ..."):
+        # a limit of the proxies, never a verdict of the code under analysis
+        import re as _re
+
+        if _re.search(r"\b(" + "|".join(_PROXY_NAMES) + r")\b", str(e)):
+            return True
     tb = e.__traceback__
     last = None
     while tb is not None:
@@ -643,6 +656,18 @@ class SymReal:
         e = self.n.z3()
         return SymReal(Poly.atom(z3.If(e >= 0, e, -e)), self.d)
 
+    def __round__(self, ndigits=None):
+        """round(x, n): the multiple k / 10^n nearest to x (at an exact tie either neighbour: Python rounds the binary value
+        half-to-even, ties are a null set and replay filters them)"""
+        c = ctx()
+        k = c.fresh_int("rounded")
+        scale = 10 ** (ndigits or 0)
+        d = _real(k) - self * scale
+        c.add(And(d <= Fraction(1, 2), d >= Fraction(-1, 2)).e)
+        if ndigits is None:
+            return k
+        return _real(k) / scale
+
     # comparisons ----------------------------------------------------------
     def _diff(self, o):
         """polynomial with the sign of self - o (denominators are positive)"""
@@ -806,8 +831,10 @@ class Stats:
         self.caps = []
         self.aborted = 0
         self.labels = {}
+        self.pinned = 0  # symbolic numerals replaced by one concrete representative (under-approximation)
 
     def merge(self, o):
+        self.pinned += getattr(o, "pinned", 0)
         self.paths += o.paths
         self.paths_nontrivial += o.paths_nontrivial
         for k, v in o.exceptions.items():
@@ -1058,6 +1085,47 @@ class Context:
         self.symbolic_decisions += 1
         return vals[0]
 
+    def pin_value(self, e, candidates=(), label="pin"):
+        """Replace the symbolic number e by ONE concrete representative on this path (an under-approximation, counted in
+        stats.pinned): the first feasible candidate, else the value of e in a model of the path condition.  The value is
+        recorded in the decision stack so that replays of the prefix see the same one."""
+        if self.pos < len(self.decisions):
+            d = self.decisions[self.pos]
+            self.pos += 1
+            self._mark()
+            if d[0] != "p":
+                raise Unsupported("non-deterministic replay (decision kind)")
+            val = d[2]
+            self.add(e == realval(val) if z3.is_real(e) else e == int(val))
+            return val
+        val = None
+        for cand in candidates:
+            ce = e == (realval(cand) if z3.is_real(e) else int(cand))
+            self.stats.branch_queries += 1
+            if self._check(ce) == z3.sat:
+                val = Fraction(cand)
+                break
+        if val is None:
+            self.model = None
+            m = self._ensure_model()
+            if m is None:
+                raise Unsupported("no model to pin a symbolic number")
+            val = _z3_to_py(m.eval(e, model_completion=True))
+            if isinstance(val, str):
+                raise Unsupported(f"cannot pin {val}")
+            val = Fraction(val)
+            if z3.is_real(e):
+                val = Fraction(float(val))  # a value a float can hold exactly
+                self.stats.branch_queries += 1
+                if self._check(e == realval(val)) != z3.sat:
+                    raise Infeasible()
+        self.decisions.append(["p", False, val])
+        self.pos += 1
+        self._mark()
+        self.add(e == realval(val) if z3.is_real(e) else e == int(val))
+        self.stats.pinned = getattr(self.stats, "pinned", 0) + 1
+        return val
+
     # -- tentative decisions: decisions whose outcome is discarded by the code under analysis
     def _mark(self):
         if self.tentative:
@@ -1077,6 +1145,8 @@ class Context:
             d = self.decisions[idx]
             if d[1]:
                 n += 1
+            if d[0] == "p":
+                continue
             d[1] = False
             if d[0] in ("c", "v"):
                 d[2] = [d[2][d[3]]]
@@ -1123,6 +1193,8 @@ class Context:
             return True
         st.prove_queries += 1
         r = self._check(z3.Not(e))
+        if r != z3.unknown and _xcheck.LIMIT[0] > 0:
+            _xcheck.submit(label, "unsat" if r == z3.unsat else "sat", self.solver, z3.Not(e))
         if r == z3.unsat:
             st.discharged += 1
             lab[1] += 1
@@ -1281,7 +1353,9 @@ def explore(fn, max_paths=100000, deadline=None, query_timeout_ms=10000, on_path
         del decisions[c.pos:]
         while decisions:
             d = decisions[-1]
-            if d[0] == "b":
+            if d[0] == "p":
+                decisions.pop()
+            elif d[0] == "b":
                 if d[1]:
                     d[1] = False
                     d[2] = not d[2]
